@@ -43,6 +43,7 @@ type config struct {
 	Subst    map[string]string `json:"subst"`     // "pkgpath.Func" -> "vrt-qualified replacement expr" (call-site substitution)
 	SubstImports map[string]string `json:"subst_imports"` // local name -> import path, added to files where a substitution happened
 	FSM      bool              `json:"fsm"`
+	TypecheckVirtual map[string]string `json:"typecheck_virtual"` // virtual files needed only to type-check inject files (vrt itself)
 }
 
 var report []string
@@ -60,6 +61,17 @@ func main() {
 		src, err := os.ReadFile(real)
 		must(err)
 		pkgOverlay[filepath.Join(cfg.Repo, virt)] = src
+	}
+	for virt, real := range cfg.TypecheckVirtual {
+		src, err := os.ReadFile(real)
+		must(err)
+		pkgOverlay[filepath.Join(cfg.Repo, virt)] = src
+	}
+	// go.mod / go.sum served from memory: package loading can never modify the repository
+	for _, f := range []string{"go.mod", "go.sum"} {
+		if src, err := os.ReadFile(filepath.Join(cfg.Repo, f)); err == nil {
+			pkgOverlay[filepath.Join(cfg.Repo, f)] = src
+		}
 	}
 	var patterns []string
 	for _, p := range cfg.Packages {
@@ -159,6 +171,7 @@ type rewriter struct {
 
 	recv2     map[*ast.UnaryExpr]bool
 	chanRange map[*ast.RangeStmt]bool
+	mapRange  map[*ast.RangeStmt]bool
 	chanLen   map[*ast.CallExpr]bool
 	genRecv   map[*ast.CallExpr]ast.Expr // generated vrt.Recv(ch) -> ch
 	genRecv2  map[*ast.CallExpr]bool
@@ -232,6 +245,7 @@ var ctxFuncs = map[string]bool{"WithTimeout": true, "WithDeadline": true}
 func (r *rewriter) rewrite() {
 	r.recv2 = map[*ast.UnaryExpr]bool{}
 	r.chanRange = map[*ast.RangeStmt]bool{}
+	r.mapRange = map[*ast.RangeStmt]bool{}
 	r.chanLen = map[*ast.CallExpr]bool{}
 	r.genRecv = map[*ast.CallExpr]ast.Expr{}
 	r.genRecv2 = map[*ast.CallExpr]bool{}
@@ -281,6 +295,10 @@ func (r *rewriter) rewrite() {
 		case *ast.RangeStmt:
 			if r.isChan(n.X) {
 				r.chanRange[n] = true
+			} else if t := r.info.TypeOf(n.X); t != nil {
+				if _, ok := t.Underlying().(*types.Map); ok {
+					r.mapRange[n] = true
+				}
 			}
 		case *ast.CallExpr:
 			if r.isBuiltin(n.Fun, "len") && len(n.Args) == 1 && r.isChan(n.Args[0]) {
@@ -346,6 +364,8 @@ func (r *rewriter) rewrite() {
 		case *ast.RangeStmt:
 			if r.chanRange[n] {
 				c.Replace(r.rewriteChanRange(n))
+			} else if r.mapRange[n] {
+				c.Replace(r.rewriteMapRange(n))
 			}
 		case *ast.SelectStmt:
 			c.Replace(r.rewriteSelect(n))
@@ -438,7 +458,14 @@ func (r *rewriter) substCall(n *ast.CallExpr) {
 	}
 	if repl, ok := r.cfg.Subst[key]; ok {
 		parts := strings.SplitN(repl, ".", 2)
-		n.Fun = &ast.SelectorExpr{X: ast.NewIdent(parts[0]), Sel: ast.NewIdent(parts[1])}
+		if parts[0] == "vrt" {
+			r.usedVrt = true
+		}
+		if r.pkg != nil && r.pkg.Name() == parts[0] && r.pkg.Path() == fn.Pkg().Path() {
+			n.Fun = ast.NewIdent(parts[1]) // same package: unqualified
+		} else {
+			n.Fun = &ast.SelectorExpr{X: ast.NewIdent(parts[0]), Sel: ast.NewIdent(parts[1])}
+		}
 		r.usedSubst = true
 		r.note(n.Pos(), "subst "+key)
 	}
@@ -477,6 +504,39 @@ func (r *rewriter) rewriteChanRange(n *ast.RangeStmt) ast.Stmt {
 	brk := &ast.IfStmt{Cond: &ast.UnaryExpr{Op: token.NOT, X: ast.NewIdent(okName)}, Body: &ast.BlockStmt{List: []ast.Stmt{&ast.BranchStmt{Tok: token.BREAK}}}}
 	body := append([]ast.Stmt{as, brk}, n.Body.List...)
 	return &ast.ForStmt{Body: &ast.BlockStmt{List: body}}
+}
+
+// rewriteMapRange makes map iteration order deterministic (sorted keys):
+//   for k, v := range m {B}  =>
+//   for _vs, _vi := vrt.MapSnap(m, site), 0; _vi < _vs.Len(); _vi++ { k, v, ok := _vs.At(_vi); if !ok {continue}; B }
+func (r *rewriter) rewriteMapRange(n *ast.RangeStmt) ast.Stmt {
+	r.usedVrt = true
+	r.note(n.Pos(), "range map")
+	vs, vi, vok := r.fresh("s"), r.fresh("i"), r.fresh("ok")
+	init := &ast.AssignStmt{Lhs: []ast.Expr{ast.NewIdent(vs), ast.NewIdent(vi)}, Tok: token.DEFINE,
+		Rhs: []ast.Expr{call(vrtSel("MapSnap"), n.X, strLit(r.site(n.Pos()))), &ast.BasicLit{Kind: token.INT, Value: "0"}}}
+	cond := &ast.BinaryExpr{X: ast.NewIdent(vi), Op: token.LSS, Y: call(&ast.SelectorExpr{X: ast.NewIdent(vs), Sel: ast.NewIdent("Len")})}
+	post := &ast.IncDecStmt{X: ast.NewIdent(vi), Tok: token.INC}
+	at := call(&ast.SelectorExpr{X: ast.NewIdent(vs), Sel: ast.NewIdent("At")}, ast.NewIdent(vi))
+	var k, v ast.Expr = ast.NewIdent("_"), ast.NewIdent("_")
+	if n.Key != nil {
+		k = n.Key
+	}
+	if n.Value != nil {
+		v = n.Value
+	}
+	var head []ast.Stmt
+	cont := &ast.IfStmt{Cond: &ast.UnaryExpr{Op: token.NOT, X: ast.NewIdent(vok)}, Body: &ast.BlockStmt{List: []ast.Stmt{&ast.BranchStmt{Tok: token.CONTINUE}}}}
+	if n.Tok == token.ASSIGN {
+		tk, tv := r.fresh("k"), r.fresh("v")
+		head = append(head, &ast.AssignStmt{Lhs: []ast.Expr{ast.NewIdent(tk), ast.NewIdent(tv), ast.NewIdent(vok)}, Tok: token.DEFINE, Rhs: []ast.Expr{at}})
+		head = append(head, cont)
+		head = append(head, &ast.AssignStmt{Lhs: []ast.Expr{k, v}, Tok: token.ASSIGN, Rhs: []ast.Expr{ast.NewIdent(tk), ast.NewIdent(tv)}})
+	} else {
+		head = append(head, &ast.AssignStmt{Lhs: []ast.Expr{k, v, ast.NewIdent(vok)}, Tok: token.DEFINE, Rhs: []ast.Expr{at}})
+		head = append(head, cont)
+	}
+	return &ast.ForStmt{Init: init, Cond: cond, Post: post, Body: &ast.BlockStmt{List: append(head, n.Body.List...)}}
 }
 
 func (r *rewriter) rewriteSelect(n *ast.SelectStmt) ast.Stmt {
@@ -656,12 +716,17 @@ func (r *rewriter) fixImports() {
 	})
 	for _, is := range r.file.Imports {
 		p, _ := strconv.Unquote(is.Path.Value)
-		if p != "sync" && p != "time" && p != "context" {
+		if p != "sync" && p != "time" && p != "context" && !r.usedSubst {
 			continue
 		}
-		name := p
+		name := ""
 		if is.Name != nil {
 			name = is.Name.Name
+		} else if pn, ok := r.info.Implicits[is].(*types.PkgName); ok {
+			name = pn.Name()
+		}
+		if name == "" {
+			continue
 		}
 		if name == "_" || name == "." {
 			continue
